@@ -3,6 +3,8 @@ package rules
 import (
 	"fmt"
 	"go/token"
+	"go/types"
+	"os"
 	"strings"
 
 	"golang.org/x/tools/go/ssa"
@@ -38,6 +40,11 @@ func nasEncodeEval(c *core.Ctx) ([]nasEncOutcome, bool) {
 				m.Store(fmt.Sprintf("mac[%d]", i), core.ArgBits(fmt.Sprintf("MAC[%d]", i), 8, 8), nil)
 			}
 			return core.AVal{K: core.ATuple, Elems: []core.AVal{mac, {K: core.AUnknown, Path: "macerr"}}}, true
+		}
+		// the counter operations are entered (their effect on the stored COUNT is what R6.args reads)
+		// and also kept in the path's trace (their order is what R6.once reads)
+		if strings.HasPrefix(ev.Callee, pSec+".Count.") {
+			ev.Record = true
 		}
 		return core.AVal{}, false
 	}
@@ -257,5 +264,232 @@ func isNewCountMethod(f *ssa.Function) bool {
 	case fnCountGet, fnCountSQN, fnCountOvf, fnCountAddOne, fnCountSet, fnCountSetSQN, fnCountSetOvf:
 		return false
 	}
+	return true
+}
+
+// r6pathsX: R6.once, R6.cipher-iff and R6.plain read off the evaluator's outcomes of NASEncode
+// (helpers entered, so a step moved into a helper - and the error it hands back - is the same
+// step). Per outcome the path's facts say which case it is (context available, new context,
+// header type), its trace says whether the payload was ciphered and a MAC computed, and the
+// final memory says what happened to the counters: "advanced exactly once after the last read"
+// is "the stored uplink COUNT ends as (COUNT handed to the MAC) + 1"; "never advanced on an error
+// path" is "on a path that returns an error it ends as it was (or as the reset made it)".
+// Returns false when the evaluation is not usable (the path rule of c06.go runs then).
+func r6pathsX(c *core.Ctx) bool {
+	const R1, R2, R3 = "R6.once", "R6.cipher-iff", "R6.plain"
+	fn := mustFunc(c, pTglib, "NASEncode")
+	outs, ok := nasEncodeEval(c)
+	if !ok || len(outs) == 0 {
+		return false
+	}
+	c.Rule(R1, "NASEncode: on every protected success path COUNT is read unchanged and advanced exactly once after the last read; reset iff new context; never advanced on an error path")
+	c.Rule(R2, "NASEncode: NASEncrypt is executed exactly on the paths where the header type is 2 or 4")
+	c.Rule(R3, "NASEncode: without security context the plain encoding is returned and no counter/key is touched")
+	const ul, dl, sht = "p0.ULCount.count", "p0.DLCount.count", "p1.SecurityHeader.SecurityHeaderType"
+	a := newAgg(c, R1)
+	a2 := newAgg(c, R2)
+	a3 := newAgg(c, R3)
+	pos := fn.Pos()
+	boolFact := func(o core.AOutcome, name string) int {
+		if f, has := o.Facts[name]; has && f[0] == f[1] {
+			return int(f[0])
+		}
+		return -1
+	}
+	count24 := func(v core.AVal) string {
+		if v.K != core.AInt || len(v.Bits) != 32 {
+			return nm(v)
+		}
+		if k, isK := v.ConstVal(); isK {
+			return fmt.Sprint(k)
+		}
+		// the 24 significant bits
+		low := core.AVal{K: core.AInt, Bits: append(append(core.BitVec{}, v.Bits[:24]...), core.ConstBits(0, 8)...)}
+		return nm(low)
+	}
+	untouchedKeys := func(o core.AOutcome) bool {
+		for _, k := range o.Mem.Cells("p0.Knas") {
+			_ = k
+			return false
+		}
+		return true
+	}
+	nProt, nPlain, nErr := 0, 0, 0
+	for _, r := range outs {
+		o := r.o
+		if o.Panicked {
+			continue
+		}
+		if len(o.Ret) != 2 {
+			a.check(false, "tglib.NASEncode:shape", pos, "", "NASEncode does not return (payload, error)")
+			continue
+		}
+		ctx, nw := boolFact(o, "p2"), boolFact(o, "p3")
+		if os.Getenv("VERIF_DEBUG") != "" {
+			fmt.Printf("DEBUG r6pathsX ctx=%d new=%d ret1=%s nils=%v\n", ctx, nw, nm(o.Ret[1]), o.Nils)
+		}
+		errV := o.Ret[1]
+		isErr := errV.NonNil || (errV.K == core.AUnknown && errV.Path != "" && !o.Nils[errV.Path] && func() bool { _, known := o.Nils[errV.Path]; return known }())
+		success := errV.K == core.ANil || (errV.K == core.AUnknown && o.Nils[errV.Path])
+		ulEnd := o.Mem.Load(ul, types.Typ[types.Uint32])
+		dlEnd := o.Mem.Load(dl, types.Typ[types.Uint32])
+		ulSame := nm(ulEnd) == ul
+		dlSame := nm(dlEnd) == dl
+		// the counter is its 24 significant bits (the top octet of the stored word is masked off by Get)
+		ulZero := count24(ulEnd) == "0"
+		dlZero := count24(dlEnd) == "0"
+		_ = dlZero
+		switch {
+		case ctx == 0:
+			nPlain++
+			okPlain := r.enc == nil && r.mac == nil && ulSame && dlSame && untouchedKeys(o)
+			okRet := o.Ret[0].K == core.ASlice && o.Ret[0].Path == "plain" && o.Ret[0].Lo == 0 && errV.K == core.AUnknown && errV.Path == "plainerr"
+			a3.check(okPlain, "tglib.NASEncode:plain:no-security-state", pos, "no cipher, no MAC, counters and keys untouched", "without a security context NASEncode must not touch counters or keys nor cipher/MAC the message (uplink COUNT ends as %s, downlink as %s)", count24(ulEnd), count24(dlEnd))
+			a3.check(okRet, "tglib.NASEncode:plain:returns-plain-encoding", pos, "returns PlainNasEncode's result and error", "without a security context NASEncode must return PlainNasEncode's result; returns (%s, %s)", clip(nm(o.Ret[0])), clip(nm(errV)))
+		case isErr || (!success && errV.K == core.AUnknown):
+			if errV.K == core.AUnknown && !isErr {
+				// an error result whose nil-ness the path never established: it is returned as it is
+				// (PlainNasEncode's error on the plain path is handled above)
+			}
+			nErr++
+			nAddE := 0
+			for i := range o.Trace {
+				ev := &o.Trace[i]
+				if ev.Callee == pSec+".Count.AddOne" && len(ev.Args) > 0 && ev.Args[0].K == core.APtr && ev.Args[0].Path == "p0.ULCount" {
+					nAddE++
+				}
+			}
+			okE := nAddE == 0 && (ulSame || (nw == 1 && ulZero) || count24(ulEnd) == ul+"<23:0>")
+			if os.Getenv("VERIF_DEBUG") != "" {
+				fmt.Printf("DEBUG r6pathsX err outcome ulEnd=%s ulSame=%v ulZero=%v nw=%d okE=%v\n", nm(ulEnd), ulSame, ulZero, nw, okE)
+			}
+			a.check(okE, "tglib.NASEncode:error-paths:count-not-advanced", pos, "on every path that returns an error the uplink COUNT is as it was (or as the new-context reset left it)", "uplink COUNT advanced on an error path: it ends as %s on a path that returns %s", count24(ulEnd), clip(nm(errV)))
+		case success && ctx == 1:
+			if r.mac == nil {
+				a.check(false, "tglib.NASEncode:protected:mac", pos, "", "a protected success path computes no MAC")
+				continue
+			}
+			nProt++
+			used := r.mac.Args[2]
+			usedK, usedConst := used.ConstVal()
+			// the counter operations of the path, in order
+			var ops []string
+			macAt, lastRead, firstRead, nAdd, addAt, ulSet, dlSet := -1, -1, -1, 0, -1, -1, -1
+			for i := range o.Trace {
+				ev := &o.Trace[i]
+				if ev.Callee == fnMac {
+					macAt = len(ops)
+					ops = append(ops, "mac")
+					continue
+				}
+				if !strings.HasPrefix(ev.Callee, pSec+".Count.") || len(ev.Args) == 0 || ev.Args[0].K != core.APtr {
+					continue
+				}
+				which := ""
+				switch ev.Args[0].Path {
+				case "p0.ULCount":
+					which = "ul"
+				case "p0.DLCount":
+					which = "dl"
+				default:
+					continue
+				}
+				m := strings.TrimPrefix(ev.Callee, pSec+".Count.")
+				// only the calls NASEncode (or a helper of tglib) makes itself: the Count methods' own internals are R6.count's
+				if par := ev.Site.Parent(); par != nil && par.Pkg != nil && par.Pkg.Pkg.Path() == pSec {
+					continue
+				}
+				switch {
+				case which == "ul" && (m == "Get" || m == "SQN" || m == "Overflow"):
+					if firstRead < 0 {
+						firstRead = len(ops)
+					}
+					lastRead = len(ops)
+				case which == "ul" && m == "AddOne":
+					nAdd++
+					addAt = len(ops)
+				case m == "Set":
+					z := len(ev.Args) == 3
+					for _, x := range ev.Args[1:] {
+						if k, isK := x.ConstVal(); !isK || k != 0 {
+							z = false
+						}
+					}
+					if z && which == "ul" {
+						ulSet = len(ops)
+					} else if z {
+						dlSet = len(ops)
+					} else {
+						m = "Set(non-zero)"
+					}
+				}
+				ops = append(ops, which+"."+m)
+			}
+			desc := strings.Join(ops, " ")
+			var errs []string
+			if nAdd != 1 {
+				errs = append(errs, fmt.Sprintf("ULCount.AddOne executed %d times (want exactly 1)", nAdd))
+			} else if addAt < lastRead {
+				errs = append(errs, "ULCount advanced before its last read (SQN/cipher/MAC would use different COUNTs)")
+			} else if macAt >= 0 && addAt < macAt {
+				errs = append(errs, "ULCount advanced before the MAC is computed")
+			}
+			for _, op := range ops {
+				switch op {
+				case "ul.SetSQN", "ul.SetOverflow", "ul.Set(non-zero)", "dl.AddOne", "dl.SetSQN", "dl.SetOverflow", "dl.Set(non-zero)":
+					errs = append(errs, "a counter is changed other than by the reset of a new context and the one advance: "+op)
+				}
+			}
+			a.check(len(errs) == 0, "tglib.NASEncode:protected:count-advanced-once", pos, "one ULCount.AddOne, after the last read of COUNT and after the MAC, on every protected success path", "%s (%s)", strings.Join(errs, "; "), desc)
+			switch nw {
+			case 1:
+				okNew := ulSet >= 0 && dlSet >= 0 && (firstRead < 0 || (ulSet < firstRead && dlSet < firstRead)) && usedConst && usedK == 0
+				why := "both counters must be Set(0,0) before COUNT is read"
+				if ulSet >= 0 && firstRead >= 0 && ulSet > firstRead {
+					why = "counters reset after COUNT was already read"
+				}
+				a.check(okNew, "tglib.NASEncode:protected:new-context-resets", pos, "new context: both counters Set(0,0) before the first read, COUNT 0 used", "new security context: %s (%s; the MAC uses COUNT %s)", why, desc, clip(count24(used)))
+			case 0:
+				a.check(ulSet < 0 && dlSet < 0 && !usedConst && dlSame, "tglib.NASEncode:protected:current-context-keeps", pos, "current context: no reset, the stored COUNT is used, the downlink counter untouched", "counter reset without a new security context (COUNT reuse under the same key): %s; the MAC uses %s, downlink ends as %s", desc, clip(count24(used)), clip(count24(dlEnd)))
+			default:
+				a.check(false, "tglib.NASEncode:protected:new-context-branch", pos, "", "a protected path does not depend on newSecurityContext")
+			}
+			a.check(untouchedKeys(o), "tglib.NASEncode:protected:keys-untouched", pos, "NAS keys not written", "NASEncode writes a NAS key")
+			// cipher-iff: which header types can take this path?
+			var types []int64
+			for _, t := range []int64{1, 2, 3, 4} {
+				feasible := true
+				if f, has := o.Facts[sht]; has && (uint64(t) < f[0] || uint64(t) > f[1]) {
+					feasible = false
+				}
+				for _, x := range o.Excl[sht] {
+					if x == t {
+						feasible = false
+					}
+				}
+				if feasible {
+					types = append(types, t)
+				}
+			}
+			ciph, clear := 0, 0
+			for _, t := range types {
+				if t == 2 || t == 4 {
+					ciph++
+				} else {
+					clear++
+				}
+			}
+			ciphered := r.enc != nil
+			okC := len(types) == 0 || (ciphered && clear == 0) || (!ciphered && ciph == 0)
+			a2.check(okC, "tglib.NASEncode:cipher-iff-header-type-2-or-4", pos, "NASEncrypt runs exactly on the paths of header types 2 and 4", "the payload is%s ciphered on a path taken for header types %v (types 2/4 must be ciphered, 1/3 must go out in clear)", map[bool]string{true: "", false: " NOT"}[ciphered], types)
+		default:
+			a.check(false, "tglib.NASEncode:shape", pos, "", "a path of NASEncode could not be classified (context flag %d, error %s)", ctx, clip(nm(errV)))
+		}
+	}
+	a.check(nProt > 0 && nPlain > 0, "tglib.NASEncode:cases", pos, fmt.Sprintf("%d protected, %d plain, %d error outcomes", nProt, nPlain, nErr), "expected protected and plain paths, found %d protected, %d plain, %d error", nProt, nPlain, nErr)
+	a.flush()
+	a2.flush()
+	a3.flush()
+	c.Note("NASEncode: %d evaluated outcomes (%d protected success, %d plain, %d error)", len(outs), nProt, nPlain, nErr)
 	return true
 }
